@@ -384,7 +384,16 @@ func (tw *TumblingWindow) startProcessingTime() {
 			select {
 			// Trigger window when timer expires
 			case <-timer.C:
-				tw.Trigger()
+				// A manual Trigger() has already emitted the interval this tick was
+				// for and moved the cursor on: firing again would emit the next
+				// interval before its end, and so would every later tick (rows
+				// arriving in the rest of each interval would be lost).
+				tw.mu.RLock()
+				early := tw.currentSlot != nil && tw.currentSlot.End != nil && time.Now().Before(*tw.currentSlot.End)
+				tw.mu.RUnlock()
+				if !early {
+					tw.Trigger()
+				}
 			// Stop timer and exit loop when context is cancelled
 			case <-tw.ctx.Done():
 				tw.timerMu.Lock()
